@@ -11,7 +11,9 @@
 (*   rt      s         regs   sk[s] = from_hex_string(sk[s].to_hex_string())*)
 (*   impbad  s         regs   from_hex_string of a malformed ASCII string   *)
 (*   est     s  est cls       estimate_count() of sketch s                  *)
-(*   import  s         regs   a register state imported from hex (adopted)  *)
+(*   import  s         regs   a register state imported from hex; res =     *)
+(*                            "ok" (adopted; the export was checked to give *)
+(*                            the same registers back), "mismatch", "err"   *)
 (*   acc     n  est           estimate of n distinct uniformly random       *)
 (*                            32-byte elements (harness-generated)          *)
 (*   row     n  cls           one row of the single-register extremes:      *)
@@ -60,8 +62,8 @@ Clauses(c, r) ==
              (IF r.res = "ok" THEN {} ELSE {"EstimateReturns"})
         \cup (IF r.res = "ok" /\ r.cls # "fin" THEN {"EstimateFinite"} ELSE {})
         \cup (IF r.res = "ok" /\ pre = Empty /\ r.est # 0 THEN {"EmptyEstimateZero"} ELSE {})
-      [] r.k = "import" ->
-             (IF r.res = "ok" /\ seen THEN {} ELSE {"ImportOutcome"})
+      [] r.k = "import" ->          \* regs = the state that was written out as hex by the driver
+             (IF r.res = "ok" \/ (r.res = "err" /\ seen /\ ~AddReachable(obs)) THEN {} ELSE {"ImportOutcome"})
       [] r.k = "acc" ->
              (IF r.res = "ok" THEN {} ELSE {"EstimateReturns"})
         \cup (IF r.res = "ok" /\ ~Envelope(r.n, r.est) THEN {"Envelope"} ELSE {})
@@ -80,6 +82,7 @@ Step == /\ l <= Len(Rec)
              /\ (IF r.k = "reset" THEN TRUE ELSE Report(Clauses(cur, r)))
              /\ cur' = (IF r.k = "reset" THEN Fresh
                         ELSE IF r.k \in {"add", "addrej", "merge", "rt", "impbad", "import"} /\ IsRegs(r.regs)
+                                /\ (r.k = "import" => r.res = "ok")
                              THEN [cur EXCEPT ![r.s] = FromTup(r.regs)]
                         ELSE cur)
              /\ l' = l + 1
